@@ -79,7 +79,9 @@ func (ed *economicsData) SplitTxGasInCategories(tx process.TransactionWithFeeHan
 
 // the fee ComputeTxFee charges, as a closed form per epoch configuration
 spec fn procPrice(ed *economicsData, tx process.TransactionWithFeeHandler) int = ed.GasPriceForProcessing(tx)
-spec fn fullFee(ed *economicsData, tx process.TransactionWithFeeHandler) int = flagSet(ed.flagGasPriceModifier) ? (isSCR(tx) ? procPrice(ed, tx) * tx.GetGasLimit() : moveFee(ed, tx) + (tx.GetGasLimit() > moveGas(ed, tx) ? procPrice(ed, tx) * (tx.GetGasLimit() - moveGas(ed, tx)) : 0)) : (flagSet(ed.flagPenalizedTooMuchGas) ? tx.GetGasLimit() * tx.GetGasPrice() : moveFee(ed, tx))
+// feeAt(ed, tx, gl): the fee of tx if its gas limit were gl
+spec fn feeAt(ed *economicsData, tx process.TransactionWithFeeHandler, gl int) int = flagSet(ed.flagGasPriceModifier) ? (isSCR(tx) ? procPrice(ed, tx) * gl : moveFee(ed, tx) + (gl > moveGas(ed, tx) ? procPrice(ed, tx) * (gl - moveGas(ed, tx)) : 0)) : (flagSet(ed.flagPenalizedTooMuchGas) ? gl * tx.GetGasPrice() : moveFee(ed, tx))
+spec fn fullFee(ed *economicsData, tx process.TransactionWithFeeHandler) int = feeAt(ed, tx, tx.GetGasLimit())
 spec fn feeForGas(ed *economicsData, tx process.TransactionWithFeeHandler, g int) int = moveFee(ed, tx) + (g > moveGas(ed, tx) ? procPrice(ed, tx) * (g - moveGas(ed, tx)) : 0)
 
 func (ed *economicsData) ComputeTxFee(tx process.TransactionWithFeeHandler) (r *big.Int)
@@ -113,6 +115,11 @@ func (ed *economicsData) ComputeGasUsedAndFeeBasedOnRefundValue(tx process.Trans
   ensures  gas-used-at-most-gas-limit: gasUsed <= tx.GetGasLimit()
   ensures  refund-lowers-fee-exactly: big(refundValue) != 0 ==> big(fee) == fullFee(ed, tx) - big(refundValue)
   ensures  fee-at-most-full-fee: (flagSet(ed.flagGasPriceModifier) || flagSet(ed.flagPenalizedTooMuchGas)) ==> big(fee) <= fullFee(ed, tx)
+
+func (ed *economicsData) ComputeGasLimitBasedOnBalance(tx process.TransactionWithFeeHandler, balance *big.Int) (r uint64, err error)
+  requires tx != nil && inv(ed) && balance != nil && tx.GetValue() != nil && moveGas(ed, tx) < 18446744073709551616
+  requires user-transaction: !isSCR(tx)
+  ensures  affordable: err == nil ==> feeAt(ed, tx, r) <= big(balance) - big(tx.GetValue())
 
 // "the fee computed from gas used grows with gas used and never exceeds the full fee" — over the contracts of the two functions
 lemma fee-from-gas-used-monotone
